@@ -126,7 +126,13 @@ def h_initial(cfg):
     """Environment(initial_time=tau), run(until=c): ValueError iff c <= tau; otherwise returns with now == c"""
     from onl.sim import Environment
     base = cfg.get('base', 0)
-    if base:
+    if cfg.get('fgrid'):
+        # binary floats on a decimal grid: run(until=c) must stop at c itself, not at now + (c - now)
+        from symx import choice
+        tau = [0.1, 0.2, 0.3, 0.7][choice('tau', 4)]
+        d = [0.1, 0.2, 0.6, 5.0][choice('d', 4)]
+        cover('float-grid')
+    elif base:
         # huge integer clock: everything concrete except which small delay is chosen (the point is exact integer instants)
         from symx import choice
         tau = base
@@ -143,11 +149,24 @@ def h_initial(cfg):
 
     env.process(p())
     c = base + cfg['c']
+    if cfg.get('fgrid'):
+        from symx import choice
+        c = [0.8, 0.9, 1.1, 1.3][choice('c', 4)]
     try:
         env.run(until=c)
     except ValueError:
         check('c03.until-refused-only-if-not-in-future', le(c, tau))
         cover('until-refused')
+        cover('nontrivial')
+        return
+    if cfg.get('fgrid'):
+        # concrete binary floats: exact comparisons (the tolerant comparators are for replays of rational models)
+        check('c03.until-accepted-only-if-in-future', c > tau)
+        check('c03.until-now', env.now == c, repr(env.now))
+        if log:
+            check('c03.until-only-strictly-earlier', log[0] < c, repr(log[0]))
+        else:
+            check('c03.until-nothing-due-earlier-left', env.peek() >= c, repr(env.peek()))
         cover('nontrivial')
         return
     check('c03.until-accepted-only-if-in-future', gt(c, tau))
@@ -500,6 +519,7 @@ def jobs(tier, seed):
     # integer clocks beyond 2**53 (e.g. nanosecond timestamps): integer instants must stay exact
     for c in (1, 3):
         js.append({'harness': 'initial', 'cfg': {'sorts': 'int', 'c': c, 'base': 2 ** 53}})
+    js.append({'harness': 'initial', 'cfg': {'sorts': 'int', 'c': 0, 'fgrid': True}})
     for plan in ([['until', 1], ['until', 2]], [['step', 2], ['until', 3]], [['until', 2], ['step', 3]]):
         js.append({'harness': 'net', 'cfg': {'n': 2, 'sorts': 'int', 'plan': plan}, 'weight': 300})
     js.append({'harness': 'hubnet', 'cfg': {'names': ['alpha', 'bravo', 'charlie', 'delta-4', 'e'], 'n': 2}, 'weight': 5})
